@@ -169,7 +169,25 @@ def _ylm_blocks(terms_):
     return out
 
 
-CUSTOM = {"SDMXylm_yzx2xyz": _ylm_blocks}
+def _uloc_blocks(terms_):
+    """uloc_l[l] is the first orbital of angular momentum l; the block of l holds (jloc_l[l+1] - jloc_l[l]) radial functions x (2l+1) components and the
+    blocks of different l do not overlap (layout built by the caller: a cumulative sum)."""
+    out, idx = [], {}
+    for t in terms_:
+        for u in tm.subterms(t).values():
+            if u.op == "fi" and u.args[0] == "uloc_l":
+                idx[u.args[1].id] = u.args[1]
+    for a in idx.values():
+        na = (tm.mk_fi("jloc_l", a + 1) - tm.mk_fi("jloc_l", a)) * (2 * a + 1)
+        out.append(tm.mk_le(tm.ZERO, tm.mk_fi("uloc_l", a)))
+        out.append(tm.mk_le(tm.mk_fi("jloc_l", a), tm.mk_fi("jloc_l", a + 1)))
+        for b in idx.values():
+            if a is not b:
+                out.append(tm.mk_implies(tm.mk_lt(a, b), tm.mk_le(tm.mk_fi("uloc_l", a) + na, tm.mk_fi("uloc_l", b))))
+    return out
+
+
+CUSTOM = {"SDMXylm_yzx2xyz": _ylm_blocks, "contract_rad_to_orb_num": _uloc_blocks}
 INJECTIVE = {"compute_mol_convs_single_new": ["ind_ord_fwd"], "compute_pot_convs_single_new": ["ind_ord_fwd"]}
 # functions whose race freedom depends on invariants of the C-built basis-set structs (AO count per shell = 2l+1, (lmax+1)^2 <= nlm, pair tables)
 # or on floating-point valued indices: not attempted — reported as unverified, never counted
@@ -178,8 +196,8 @@ SKIP = {
     "project_conv_to_spline": "needs nm = 2l+1 and (l+1)^2 <= nlm for every shell", "generate_atc_integrals_vj": "pair_loc layout of convolution_collection",
     "generate_atc_integrals_vi": "pair_loc layout of convolution_collection", "compute_num_spline_contribs": "index computed from floor(log(distance)): needs floating-point range reasoning",
     "compute_num_spline_contribs_new": "index computed from floor(log(distance))", "contract_rad_to_orb": "needs ar_loc/ra_loc consistency and shell-size invariants",
-    "contract_orb_to_rad": "needs shell-size invariants ((l+1)^2 <= nlm)", "contract_rad_to_orb_num": "uloc_l / jloc_l scratch tables built inside the region",
-    "contract_orb_to_rad_num": "needs (l+1)^2 <= nlm", "write_fft_input": "covered by C20 (layout arithmetic with the plan struct)", "read_fft_output": "covered by C20",
+    "contract_orb_to_rad": "needs shell-size invariants ((l+1)^2 <= nlm)", 
+     "write_fft_input": "covered by C20 (layout arithmetic with the plan struct)", "read_fft_output": "covered by C20",
     "compute_spline_bas_separate_deriv": "writes the harmonics of every degree up to floor(sqrt(nlm-1)) into rows of length nlm: with the requires nlm = (lmax+1)^2, lmax >= 1 no pair is "
                                          "refuted and 172 of 193 are decided; the remaining quadratic row-offset comparisons are solver-unknown within budget",
     "SDMXylm_loop": "same collapsed (atom, block) decomposition; calls recursive_sph_harm on a per-thread buffer (value contract of the harmonics under C06)",
